@@ -4,6 +4,7 @@
 mod engine;
 mod enumr;
 mod gen;
+mod inject;
 mod json;
 mod obs;
 mod ops;
@@ -95,6 +96,26 @@ fn main() {
                 a + args.u64("random", 0)
             };
             emit(&args, stats_json(&out).set("cmd", J::s(&args.cmd)).set("cases", J::u(cases)));
+        }
+        "inject" => {
+            let mut out = engine::RunOut::new();
+            let p = inject::InjectParams { seed: args.u64("seed", 0), budget_cases: args.u64("cases", 2000), markers: args.u64("markers", 0) == 1,
+                further_min: args.u64("further-min", 6) as usize, further_max: args.u64("further-max", 20) as usize };
+            inject::run_inject(&p, &mut out);
+            emit(&args, stats_json(&out).set("cmd", J::s("inject")));
+        }
+        "replay_inject" => {
+            // file: cfg line, `inject <class> <n> <at>` line, then one op per line
+            let text = std::fs::read_to_string(args.str("file", "")).expect("read replay file");
+            let mut lines = text.lines().filter(|l| !l.trim().is_empty());
+            let cfg = gen::HistCfg::from_text(lines.next().expect("cfg line")).expect("cfg");
+            let inj: Vec<String> = lines.next().expect("inject line").split_whitespace().map(|s| s.to_string()).collect();
+            let class = types::CLASS_NAMES.iter().position(|c| *c == inj[1]).expect("class");
+            let n: u64 = inj[2].parse().expect("n"); let at: usize = inj[3].parse().expect("at");
+            let ops: Vec<ops::Op> = lines.map(|l| ops::Op::from_text(l).expect("op")).collect();
+            let mut out = engine::RunOut::new();
+            inject::replay_inject(&cfg, &ops, at, class, n, &mut out);
+            emit(&args, stats_json(&out).set("cmd", J::s("replay_inject")));
         }
         "selfcheck" => {
             // used by the driver to build (and smoke-test) a mode
